@@ -133,6 +133,11 @@ Definition sort_tags (input output : list hdr) : list string :=
                      else if reachable (S (String.length (clean (h_name h)))) input (clean (h_name h))
                           then ["viol:sort-entry-lost"] else ["viol:installed-unreachable-entry-dropped"]) input.
 
+(* the readable statement [sort_tags] decides (Proofs/FormatsSort.v): the output has
+   the shape the format needs, invents nothing and loses nothing *)
+Definition SortedWell (input output : list hdr) : Prop :=
+  governed None output = true /\ incl output input /\ incl input output.
+
 (* ---- passwd / group ------------------------------------------------------------------ *)
 Definition user_eqb (a b : user) : bool :=
   (u_name a =? u_name b) && (u_pass a =? u_pass b) && (u_uid a =? u_uid b)%N && (u_gid a =? u_gid b)%N &&
